@@ -31,11 +31,13 @@ PAIRS = [
 ]
 
 
-def work(job: Tuple[str, str, str, bool]) -> Dict[str, Any]:
+def work(job: Tuple[str, str, str, str, str]) -> Dict[str, Any]:
+    """mode: nolint | lint (lint before every rendering) | lint-vs-q (render, lint the same tree, render again: -q must
+    not matter); order: fwd | rev (the order in which the target languages are rendered within the process)"""
     from ..zc import Template, parse_text, zc
 
-    name, ta, tb, lint_between = job
-    res = {"case": f"{name}:{'lint' if lint_between else 'nolint'}", "messages": 1, "leaves": 0, "paths": 0, "queries": 0, "unsat": 0, "sat": 0, "unknown": 0, "solver_s": 0.0, "merges": 0, "witness": 0, "witness_agree": 0,
+    name, ta, tb, mode, order = job
+    res = {"case": f"{name}:{mode}:{order}", "messages": 1, "leaves": 0, "paths": 0, "queries": 0, "unsat": 0, "sat": 0, "unknown": 0, "solver_s": 0.0, "merges": 0, "witness": 0, "witness_agree": 0,
            "violations": [], "inconclusive": [], "samples": [], "obligations": 0}
     z = zc()
     PE = z.errors.ParserError
@@ -47,6 +49,8 @@ def work(job: Tuple[str, str, str, bool]) -> Dict[str, Any]:
     syms = {n: ZInt(zv[n]) for n in names}
     R = [("c.h", z.mod("bitproto.renderer.impls.c.renderer_h").RendererCHeader), ("c.c", z.mod("bitproto.renderer.impls.c.renderer_c").RendererC), ("go", z.mod("bitproto.renderer.impls.go.renderer").RendererGo),
          ("py", z.mod("bitproto.renderer.impls.py.renderer").RendererPy)]
+    if order == "rev":
+        R = R[::-1]
     eng = Engine(max_paths=400)
     pysym.set_engine(eng)
     with Scratch() as sc:
@@ -57,47 +61,92 @@ def work(job: Tuple[str, str, str, bool]) -> Dict[str, Any]:
         open(fa, "w").write(texta)
         open(fb, "w").write(textb)
 
-        def comp(text: str, holes: Any, fp: str) -> List[str]:
+        def lint(proto: Any) -> None:
+            with contextlib.redirect_stderr(io.StringIO()):
+                z.mod("bitproto.linter").lint(proto)
+
+        def comp(text: str, holes: Any, fp: str) -> Tuple[List[str], List[str]]:
             proto = parse_text(text, holes, syms, filepath=fp)
-            if lint_between:
-                with contextlib.redirect_stderr(io.StringIO()):
-                    z.mod("bitproto.linter").lint(proto)
-            return [r(proto, outdir=sc.dir).render_string() for _, r in R]
+            if mode == "lint":
+                lint(proto)
+            first = [r(proto, outdir=sc.dir).render_string() for _, r in R]
+            if mode != "lint-vs-q":
+                return first, first
+            lint(proto)
+            return first, [r(proto, outdir=sc.dir).render_string() for _, r in R]
 
         def h() -> Any:
             for n in names:
                 pysym.ENGINE.assume(z3.And(zv[n] >= 0, zv[n] < 200))
-            first = comp(texta, ha, fa)
+            first, relint = comp(texta, ha, fa)
             try:
                 comp(textb, hb, fb)
             except PE:
                 pass  # B may be rejected for some values: it still ran before A's second compilation
-            third = comp(texta, ha, fa)
-            return first, third
+            third, _ = comp(texta, ha, fa)
+            return first, relint, third
 
         try:
+            fresh_done = 0
             for p in eng.explore(h):
                 if p.exc is not None:
                     if not isinstance(p.exc, PE):
                         res["inconclusive"].append(f"{res['case']}: {type(p.exc).__name__}: {p.exc}")
                     continue
-                first, third = p.value
+                first, relint, third = p.value
                 norm = lambda t: re.sub(r"⟦S\d+⟧", lambda m: "<" + str(z3.simplify(p.sentinels[m.group(0)])) + ">", t)
-                for (lang, _), x, y in zip(R, first, third):
-                    res["obligations"] += 1
-                    if norm(x) != norm(y):
+                vals: Dict[str, int] = {}
+
+                def witness() -> Dict[str, int]:
+                    if not vals:
                         wm = p.witness()
-                        vals = {n: wm.eval(zv[n], model_completion=True).as_long() for n in names}
-                        conf = _confirm(A.concrete(vals), B.concrete(vals), lang)
-                        lx, ly = norm(x).split("\n"), norm(y).split("\n")
+                        vals.update({n: wm.eval(zv[n], model_completion=True).as_long() for n in names})
+                    return vals
+
+                for (lang, _), x, y, w in zip(R, first, third, relint):
+                    res["obligations"] += 2
+                    for other, what, kind in ((y, "after schema B was compiled in the same process", "history"), (w, "once the linter has looked at the schema (i.e. without -q)", "lint")):
+                        if norm(x) == norm(other):
+                            continue
+                        v = witness()
+                        conf = _confirm(A.concrete(v), B.concrete(v), lang, kind)
+                        lx, ly = norm(x).split("\n"), norm(other).split("\n")
                         i = next((i for i in range(min(len(lx), len(ly))) if lx[i] != ly[i]), 0)
                         if conf:
-                            res["violations"].append({"what": f"{res['case']} {vals}: {lang} output of schema A differs after schema B was compiled in the same process: {conf}", "payload": {"kind": "history", "a": A.concrete(vals), "b": B.concrete(vals), "lang": lang},
-                                                      "confirmed": True, "info": {"kind": "history", "key": "history"}})
+                            res["violations"].append({"what": f"{res['case']} {v}: {lang} output of schema A differs {what}: {conf}", "payload": {"kind": kind, "a": A.concrete(v), "b": B.concrete(v), "lang": lang},
+                                                      "confirmed": True, "info": {"kind": kind, "key": kind}})
                         else:
-                            res["inconclusive"].append(f"{res['case']}: {lang} output differs in the symbolic run (line {i + 1}: {lx[i][:50]!r} vs {ly[i][:50]!r}) but not natively for {vals}")
+                            res["inconclusive"].append(f"{res['case']}: {lang} output differs in the symbolic run {what} (line {i + 1}: {lx[i][:50]!r} vs {ly[i][:50]!r}) but not natively for {v}")
                         break
-            res["samples"].append({"history": "compile A; compile B; compile A", "pair": res["case"], "paths": eng.stats["paths"]})
+                    else:
+                        continue
+                    break
+                # the FIRST rendering in this (fresh) worker process already has a history: the other target languages were
+                # rendered before it, in this job's order.  Its text, literals instantiated by the path's witness, must be
+                # what a fresh process that renders only this language writes.
+                if fresh_done < FRESH_PER_JOB:
+                    fresh_done += 1
+                    v = witness()
+                    conc = lambda t: re.sub(r"⟦S\d+⟧", lambda m: str(p.witness().eval(p.sentinels[m.group(0)], model_completion=True)), t)
+                    for (lang, _), x in zip(R, first):
+                        ref = _fresh(A.concrete(v), lang)
+                        res["obligations"] += 1
+                        res["witness"] += 1
+                        if ref is None:
+                            res["inconclusive"].append(f"{res['case']}: no native reference for {lang} {v}")
+                            continue
+                        if conc(x) == ref:
+                            res["witness_agree"] += 1
+                            continue
+                        lx, ly = conc(x).split("\n"), ref.split("\n")
+                        i = next((i for i in range(min(len(lx), len(ly))) if lx[i] != ly[i]), 0)
+                        conf = _confirm_order(A.concrete(v), [l for l, _ in R], lang)
+                        if conf:
+                            res["violations"].append({"what": f"{res['case']} {v}: {lang} output depends on which target languages were rendered earlier in the process ({[l for l, _ in R]}): {conf}",
+                                                      "payload": {"kind": "order", "a": A.concrete(v), "order": [l for l, _ in R], "lang": lang}, "confirmed": True, "info": {"kind": "order", "key": "order"}})
+                        else:
+                            res["inconclusive"].append(f"{res['case']}: {lang} text of the symbolic run differs from a fresh native process (line {i + 1}: {lx[i][:60]!r} vs {ly[i][:60]!r}) but the native history run does not")
+            res["samples"].append({"history": f"render {[l for l, _ in R]} of A; compile B; compile A", "pair": res["case"], "paths": eng.stats["paths"]})
         except Inconclusive as e:
             res["inconclusive"].append(f"{res['case']}: {type(e).__name__}: {e}")
     for k in ("paths", "queries", "unsat", "sat", "unknown"):
@@ -107,64 +156,131 @@ def work(job: Tuple[str, str, str, bool]) -> Dict[str, Any]:
     return res
 
 
+FRESH_PER_JOB = 2
+
 NATIVE = r'''
 import sys, os, json
 sys.path.insert(0, sys.argv[1])
 from bitproto.parser import parse
 from bitproto.renderer import render
-d = sys.argv[2]; lang = sys.argv[3]
-def comp(f, out):
+from bitproto.linter import lint
+import contextlib, io
+d = sys.argv[2]; mode = sys.argv[3]; langs = sys.argv[4].split(",")
+def comp(f, out, lang, do_lint=False, proto=None):
     os.makedirs(out, exist_ok=True)
     try:
-        render(parse(f), lang, outdir=out)
+        proto = proto or parse(f)
+        if do_lint:
+            with contextlib.redirect_stderr(io.StringIO()):
+                lint(proto)
+        render(proto, lang, outdir=out)
     except Exception as e:
         return None
     return {fn: open(os.path.join(out, fn)).read() for fn in sorted(os.listdir(out))}
-a1 = comp(os.path.join(d, "a.bitproto"), os.path.join(d, "o1"))
-comp(os.path.join(d, "b", "a.bitproto"), os.path.join(d, "o2"))
-a3 = comp(os.path.join(d, "a.bitproto"), os.path.join(d, "o3"))
-print(json.dumps({"same": a1 == a3, "fresh": a1}))
+A = os.path.join(d, "a.bitproto")
+if mode == "history":
+    a1 = comp(A, os.path.join(d, "o1"), langs[0])
+    comp(os.path.join(d, "b", "a.bitproto"), os.path.join(d, "o2"), langs[0])
+    a3 = comp(A, os.path.join(d, "o3"), langs[0])
+    print(json.dumps({"same": a1 == a3}))
+elif mode == "order":
+    outs = {}
+    for i, l in enumerate(langs):
+        outs[l] = comp(A, os.path.join(d, "o%d" % i), l)
+    print(json.dumps(outs))
 '''
 
 
-def _confirm(ta: str, tb: str, lang: str) -> str:
-    """native: one process compiles A, B, A; a second, fresh process compiles A only"""
+def _native(files: Dict[str, str], mode: str, langs: List[str]) -> Any:
     import json
     import os
     import subprocess
 
     from ..common import REPO, VENV_PY
 
-    L = lang.split(".")[0]
     with Scratch() as sc:
-        os.makedirs(sc.path("b"))
-        open(sc.path("a.bitproto"), "w").write(ta)
-        open(sc.path("b", "a.bitproto"), "w").write(tb)
-        r = subprocess.run([VENV_PY, "-c", NATIVE, os.path.join(REPO, "compiler"), sc.dir, L], capture_output=True, text=True, timeout=120)
+        for fn, text in files.items():
+            os.makedirs(os.path.dirname(sc.path(fn)), exist_ok=True)
+            open(sc.path(fn), "w").write(text)
+        r = subprocess.run([VENV_PY, "-c", NATIVE, os.path.join(REPO, "compiler"), sc.dir, mode, ",".join(langs)], capture_output=True, text=True, timeout=120)
         if r.returncode:
-            return ""
-        o = json.loads(r.stdout)
-        if not o["same"]:
-            return "first and third compilation of A differ within one process"
+            return None
+        return json.loads(r.stdout)
+
+
+def _cli(text: str, lang: str, quiet: bool) -> Any:
+    "the real command line, one process, with or without -q; returns {file name: content} or None"
+    import os
+
+    from ..compile import compile_cli
+
+    with Scratch() as sc:
+        open(sc.path("a.bitproto"), "w").write(text)
+        if compile_cli(sc.dir, "a.bitproto", lang, sc.path("out"), ["-q"] if quiet else []).returncode != 0:
+            return None
+        return {fn: open(sc.path("out", fn)).read() for fn in sorted(os.listdir(sc.path("out")))}
+
+
+_EXT = {"c.h": ("c", "a_bp.h"), "c.c": ("c", "a_bp.c"), "go": ("go", "a_bp.go"), "py": ("py", "a_bp.py")}
+
+
+def _fresh(ta: str, lang: str) -> Any:
+    "what a fresh process that compiles only A for only this language writes"
+    L, fn = _EXT[lang]
+    o = _cli(ta, L, True)
+    return None if o is None else o.get(fn)
+
+
+def _confirm(ta: str, tb: str, lang: str, kind: str = "history") -> str:
+    "native: (history) one process compiles A, B, A; (lint) the command line with and without -q"
+    L, fn = _EXT[lang]
+    if kind == "lint":
+        q, nq = _cli(ta, L, True), _cli(ta, L, False)
+        if q is not None and nq is not None and q != nq:
+            return "the files written with and without -q differ"
+        return ""
+    o = _native({"a.bitproto": ta, "b/a.bitproto": tb}, "history", [L])
+    if o is not None and not o["same"]:
+        return "first and third compilation of A differ within one process"
+    return ""
+
+
+def _confirm_order(ta: str, order: List[str], lang: str) -> str:
+    "native: one process renders A for the languages in the given order; compare with a fresh process per language"
+    L, fn = _EXT[lang]
+    langs = []
+    for l in order:
+        if _EXT[l][0] not in langs:
+            langs.append(_EXT[l][0])
+    o = _native({"a.bitproto": ta}, "order", langs)
+    ref = _cli(ta, L, True)
+    if o is None or ref is None or o.get(L) is None:
+        return ""
+    if o[L].get(fn) != ref.get(fn):
+        return f"{fn} written after {langs[:langs.index(L)]} in the same process differs from the one a fresh process writes"
     return ""
 
 
 def main() -> int:
     from .agg import run_parts
 
-    jobs = [(n, a, b, l) for n, a, b in PAIRS for l in (False, True)] + [(n + "/swapped", b, a, l) for n, a, b in PAIRS for l in (False,)]
+    jobs = [(n, a, b, m, o) for n, a, b in PAIRS for m, o in (("nolint", "fwd"), ("lint", "fwd"), ("lint-vs-q", "rev"))] + [(n + "/swapped", b, a, "nolint", "rev") for n, a, b in PAIRS]
     meta = {
         "functions_encoded": ["compiler/bitproto/utils.py", "compiler/bitproto/_ast.py", "compiler/bitproto/parser.py", "compiler/bitproto/renderer/block.py", "compiler/bitproto/renderer/formatter.py", "compiler/bitproto/linter.py"],
-        "bounds": f"{len(PAIRS)} schema pairs (A, B re-using A's names with other values / marks / constant kinds), both orders, with and without lint between; holes 0..199; histories of length 3 (A, B, A) in one process",
-        "outside_claim": "everything else in the property -- different processes, PYTHONHASHSEED, working / output directories, relative vs absolute paths: none of these is an input that can be made symbolic (the hash seed is fixed before the interpreter starts; id()-based hashing and dict order are properties of the runtime, not of values); deciding them means re-running the compiler, i.e. enumerating concrete runs",
-        "explanation": "kernel only: caches and module-level state keyed on values (functools.cache on formatter / AST methods, class-level monkeypatching, cached lists mutated in place) are exercised by compiling A, B, A in one symbolic run; the first and third rendering of A must be the same text with the same terms for all values",
+        "bounds": f"{len(PAIRS)} schema pairs (A, B re-using A's names with other values / marks / constant kinds), both orders; modes: no lint, lint before every rendering, render - lint the same tree - render again (= without / with -q); the four renderers in the order c.h, c.c, go, py or reversed; holes 0..199; histories of length 3 (A, B, A) in one process; each job in a worker process of its own (nothing compiled before); for the first {FRESH_PER_JOB} paths of a job the text of the first rendering, literals instantiated by the path's witness, is compared with the file a fresh command-line process writes for that language alone",
+        "outside_claim": "everything else in the property -- PYTHONHASHSEED, working / output directories, relative vs absolute paths: none of these is an input that can be made symbolic (the hash seed is fixed before the interpreter starts; id()-based hashing and dict order are properties of the runtime, not of values); deciding them means re-running the compiler, i.e. enumerating concrete runs",
+        "explanation": "kernel only: caches and module-level state keyed on values or classes (functools.cache on formatter / AST methods, class-level attributes, cached lists mutated in place, e.g. by a linter rule) are exercised by compiling A, B, A in one symbolic run, for several target languages in a row; the first and third rendering of A, and the rendering before and after lint, must be the same text with the same terms for all values; the first rendering must be what a fresh process writes",
     }
-    return run_parts(PROP, "other", [("in-process-history", work, jobs)], meta, ["z3 decides the integer queries", "sentinel normalisation compares literals by their simplified terms"])
+    return run_parts(PROP, "other", [("in-process-history", work, jobs)], meta, ["z3 decides the integer queries", "sentinel normalisation compares literals by their simplified terms"], fresh_workers=True)
 
 
 def replay(path: str) -> int:
     import json
 
     p = json.load(open(path))
-    print(_confirm(p["a"], p["b"], p["lang"]) or "passes now")
-    return 1
+    if p.get("kind") == "order":
+        r = _confirm_order(p["a"], p["order"], p["lang"])
+    else:
+        r = _confirm(p["a"], p.get("b", p["a"]), p["lang"], p.get("kind", "history"))
+    print(r or "passes: holds on this input now")
+    return 1 if r else 0
